@@ -26,7 +26,8 @@ the blocking point on*: every modelled step needs its locks at its first action 
   `loading = false` returns `Ready` inside `aStart` (no hook on that path).
   `computed/async_derived/arc_async_derived.rs`: `pWrite` = the derived's task resuming after its
   future completed: `set_inner_value` (`*value.write().await = v`; Pending while a reader guard is
-  out, and a pending writer keeps later readers out) up to `notify_subs:enter`; `pStore` =
+  out, a pending writer keeps later readers out, and releasing the write lock wakes the readers
+  queued behind it — async-lock, trusted) up to `notify_subs:enter`; `pStore` =
   `loading.store(false)` (`notify_subs:stored`); `pDrain` = state replace, `ready_tx.send`,
   subscribers' `mark_dirty`, `mem::take(wakers)` + `wake()` each (`notify_subs:drained`); `pFinish`.
 * `Chan` — `channel.rs`: `Sender::notify` = `sStore` (`set.store(true)`, yield `notify:stored`) then
@@ -35,7 +36,8 @@ the blocking point on*: every modelled step needs its locks at its first action 
   `while rx.next().await.is_some()` (effect.rs / arc_async_derived.rs) with a poll budget.
 * `Memo` — `computed/inner.rs` `MemoInner::update_if_necessary` as called from
   `ArcMemo::try_read_untracked` (`computed/arc_memo.rs`), `signal/subscriber_traits.rs`
-  (`mark_subscribers_check` = take the subscriber set, `mark_dirty` each) and `ArcRwSignal::set`:
+  (a signal's `mark_subscribers_check` = clone the subscriber set, `mark_dirty` each; the memo stays
+  subscribed until its own `clear_sources`) and `ArcRwSignal::set`:
   `g0` = `needs_update` (`reactivity.read`) [+ the whole clean path], yield `memo:before-take`;
   `g1` = `value.write().take()` (`memo:taken`); `g2` = `inner_1` (`clear_sources`) + the user function
   with no lock held (`memo:before-reactivity`); `g3` = `reactivity.write()` (`memo:reactivity-held`);
@@ -69,6 +71,10 @@ structure Awaiter where
   pc : APc := .start
   woken : Bool := false
   guard : Bool := false
+  /-- its `value.read_arc()` future is queued behind a pending writer for the rest of this poll -/
+  listening : Bool := false
+  /-- the lock's `no_writer` event has notified this listener -/
+  notified : Bool := false
   polls : Nat := 2
   pendings : Nat := 0
   deriving DecidableEq, Repr
@@ -85,11 +91,21 @@ structure State where
   wakers : List Nat := []
   readers : Nat := 0
   writerWaiting : Bool := false
+  /-- awaiters queued on the async lock's `no_writer` event, in registration order -/
+  listeners : List Nat := []
   ppc : PPc := .start
   aw : Nat → Awaiter
 
 def init (guardKind : Bool) (polls : Nat) : State :=
   { guardKind, aw := fun _ => { polls } }
+
+/-- `Event::notify(1)` (event-listener, trusted): unless a listener is already notified, notify
+the first one in the queue, which fires its task waker -/
+def notifyOne (aw : Nat → Awaiter) (ls : List Nat) : Nat → Awaiter :=
+  if ls.any (fun j => (aw j).notified) then aw
+  else match ls with
+    | [] => aw
+    | j :: _ => upd aw j { aw j with notified := true, woken := true }
 
 /-- begin a poll: budget check, `loading.load`, (guard), Ready on `false` -/
 def beginPoll (s : State) (i : Nat) (a : Awaiter) : State :=
@@ -100,7 +116,10 @@ def beginPoll (s : State) (i : Nat) (a : Awaiter) : State :=
       if s.guardKind && !s.writerWaiting then
         { s with readers := s.readers + 1, aw := upd s.aw i { a with pc := .push, guard := true } }
       else
-        { s with aw := upd s.aw i { a with pc := .push } }
+        if s.guardKind then
+          { s with listeners := s.listeners ++ [i], aw := upd s.aw i { a with pc := .push, listening := true } }
+        else
+          { s with aw := upd s.aw i { a with pc := .push } }
     else
       { s with aw := upd s.aw i { a with pc := .ready } }
 
@@ -110,9 +129,15 @@ def stepAwaiter (s : State) (i : Nat) : State :=
   | .start => beginPoll s i a
   | .push => { s with wakers := s.wakers ++ [i], aw := upd s.aw i { a with pc := .ret } }
   | .ret =>
+    -- the poll returns: the guard / the queued `read_arc()` future is dropped; a dropped listener
+    -- that had been notified passes the notification on
+    let ls := s.listeners.filter (· != i)
+    let aw := upd s.aw i { a with pc := .parked, guard := false, listening := false, notified := false,
+                                  pendings := a.pendings + 1 }
     { s with
       readers := (if a.guard then s.readers - 1 else s.readers)
-      aw := upd s.aw i { a with pc := .parked, guard := false, pendings := a.pendings + 1 } }
+      listeners := ls
+      aw := if a.notified then notifyOne aw ls else aw }
   | .parked => if a.woken then beginPoll s i { a with woken := false } else s
   | .ready => s
   | .gaveUp => s
@@ -124,7 +149,10 @@ def wakeAll (aw : Nat → Awaiter) (ws : List Nat) : Nat → Awaiter :=
 def stepProducer (s : State) : State :=
   match s.ppc with
   | .start =>
-    if s.readers = 0 then { s with value := some 7, writerWaiting := false, ppc := .entered }
+    if s.readers = 0 then
+      -- releasing the write lock notifies the first reader queued behind it
+      { s with value := some 7, writerWaiting := false, ppc := .entered
+               aw := notifyOne s.aw s.listeners }
     else { s with writerWaiting := true }
   | .entered => { s with loading := false, ppc := .stored }
   | .stored => { s with aw := wakeAll s.aw s.wakers, wakers := [], ppc := .drained }
@@ -306,7 +334,7 @@ def micro (s : State) (i : Nat) : Option State :=
       else some (readValue s i { p with isHold := true })
     | some (.set v) =>
       if s.subscribed then
-        some { s with sig := v, subscribed := false, ps := upd s.ps i { p with pc := .markDirty } }
+        some { s with sig := v, ps := upd s.ps i { p with pc := .markDirty } }
       else some (opDone { s with sig := v } i p .unit)
     | some .drop =>
       if p.holding then some (opDone { s with guards := s.guards - 1 } i { p with holding := false } .unit)
@@ -396,13 +424,18 @@ def locksHeld : Pc → List Lock
   | _ => []
 
 def locksNeeded : Pc → List Lock
-  | .atOp => [.reactivity]       -- needs_update / (set: none until markDirty)
+  | .atOp => [.reactivity]       -- needs_update (get / hold); set / drop need nothing here
   | .g1 => [.value]
   | .g2 => [.reactivity]         -- clear_sources, add_source inside the user function's reads
   | .g3 => [.reactivity]
   | .g4 => [.value]
-  | .g5 => [.value]              -- read
+  | .g5 => []                    -- `value.read()`: conflicts only with a writer, and no step parks holding `value.write()`
   | .markDirty => [.reactivity]
+
+/-- a lock can be taken right now (`value`: for writing, i.e. no user read guard is out) -/
+def available (s : State) : Lock → Bool
+  | .reactivity => s.rw == none
+  | .value => s.guards == 0
 
 def userFunAt : Pc := .g2
 
